@@ -2,6 +2,8 @@
 (* Decision tables of Scmp as state spaces of one-step behaviours (Init-only):  *)
 (*   TABLE = "quote": every (error kind, SCION header size 36..1020, offender     *)
 (*           length in {0, 1, budget-1, budget, budget+1, 9216})                 *)
+(*   TABLE = "quote_dense": ParameterProblem x the three header sizes of the SNAP *)
+(*           gateway (36, 48, 60) x EVERY offender length 0..9216                *)
 (*   TABLE = "reply": every received SCMP message descriptor                     *)
 (*           (type 0..255) x (bytes present) x (truncated datagram, checksum)    *)
 (*           x (path reversible) x (addresses decodable)                         *)
@@ -16,6 +18,9 @@ VARIABLE cell
 
 OffLens(k, h) == {0, 1, Budget(k, h) - 1, Budget(k, h), Budget(k, h) + 1, 9216}
 QuoteCells == UNION {{[kind |-> k, hdr |-> h, off |-> o] : o \in OffLens(k, h)} : k \in ErrKinds, h \in HdrLens}
+
+DenseCells == {[kind |-> "ParamProblem", hdr |-> h, off |-> o] : h \in {36, 48, 60}, o \in 0..9216}
+IsQuote == TABLE \in {"quote", "quote_dense"}
 
 Haves == {0, 3, 4, 7, 8, 9, 12, 19, 20, 23, 24, 27, 28, 40, 200, 1300}
 \* (trunc, ck): a truncated datagram never verifies
@@ -32,7 +37,8 @@ ODesc(c) == [scmp |-> c.scmp, t |-> c.t, has4 |-> c.have >= 4, parsed |-> c.have
 \* the same packet as a message descriptor for the router's own echo service
 RDesc(c) == [t |-> c.t, complete |-> c.have >= Fixed(c.t), ck |-> (c.ck /\ c.have >= 4), parsed |-> c.have >= ParseFixed(c.t), rev |-> TRUE, addr |-> TRUE]
 
-Cells == IF TABLE = "quote" THEN QuoteCells ELSE IF TABLE = "reply" THEN ReplyCells ELSE RouterCells
+Cells == IF TABLE = "quote" THEN QuoteCells ELSE IF TABLE = "quote_dense" THEN DenseCells
+         ELSE IF TABLE = "reply" THEN ReplyCells ELSE RouterCells
 
 Init == cell \in Cells
 Next == UNCHANGED cell
@@ -40,10 +46,10 @@ Spec == Init /\ [][Next]_cell
 
 (* ------------------------------ invariants --------------------------------- *)
 \* (a) P: the I-layer's packet never exceeds 1232 bytes and its quote is a prefix (by length) of the offender
-QuoteBounded == TABLE = "quote" => PBounded(ImplTotal(cell.kind, cell.hdr, cell.off, BROKENQ))
-QuoteIsPrefixLen == TABLE = "quote" => ImplQuoteLen(cell.kind, cell.hdr, cell.off, BROKENQ) <= cell.off
+QuoteBounded == IsQuote => PBounded(ImplTotal(cell.kind, cell.hdr, cell.off, BROKENQ))
+QuoteIsPrefixLen == IsQuote => ImplQuoteLen(cell.kind, cell.hdr, cell.off, BROKENQ) <= cell.off
 \* conformance of the transcription with the closed form of DESIGN.md (maximal quote)
-QuoteMaximal == (TABLE = "quote" /\ ~BROKENQ) =>
+QuoteMaximal == (IsQuote /\ ~BROKENQ) =>
                   /\ ImplQuoteLen(cell.kind, cell.hdr, cell.off, FALSE) = QuoteLen(cell.kind, cell.hdr, cell.off)
                   /\ ImplTotal(cell.kind, cell.hdr, cell.off, FALSE) = Total(cell.kind, cell.hdr, cell.off)
                   /\ Budget(cell.kind, cell.hdr) >= 184      \* the saturating subtractions never saturate
@@ -60,7 +66,7 @@ RouterEchoAnswered == (TABLE = "router" /\ cell.scmp) => (Class(RDesc(cell)) = "
 RouterEchoNoReplyToErrorOrMalformed == (TABLE = "router" /\ cell.scmp) => (PMustNotAnswer(RDesc(cell)) => RouterEcho(RDesc(cell)) = 0)
 
 (* ------------------------------ generation --------------------------------- *)
-Out == IF TABLE = "quote" THEN
+Out == IF IsQuote THEN
          [kind |-> cell.kind, t |-> ScmpType(cell.kind), hdr |-> cell.hdr, off |-> cell.off,
           scmphdr |-> ScmpHdr(cell.kind),
           quote |-> ImplQuoteLen(cell.kind, cell.hdr, cell.off, BROKENQ),
